@@ -97,6 +97,7 @@ func (r *Rng) Scalar() *big.Int {
 
 type SimCfg struct {
 	NumCPU     int     `json:"numcpu"`
+	GoMaxProcs int     `json:"gomaxprocs,omitempty"` // simulated runtime.GOMAXPROCS(0); 0 = same as numcpu
 	Policy     string  `json:"policy"`
 	Param      int     `json:"param,omitempty"`
 	Seed       uint64  `json:"sched_seed"`
@@ -147,6 +148,10 @@ func GenSimCfg(r *Rng, near int, maxCPU int) SimCfg {
 	case "starve":
 		c.Param = r.Intn(8)
 	}
+	if r.Chance(25) {
+		// GOMAXPROCS need not equal the CPU count (containers, GOMAXPROCS env)
+		c.GoMaxProcs = 1 + r.Intn(c.NumCPU+4)
+	}
 	c.Seed = r.U64()
 	c.PoolBuggy = r.Bool()
 	c.MapShuffle = r.Bool()
@@ -155,7 +160,7 @@ func GenSimCfg(r *Rng, near int, maxCPU int) SimCfg {
 
 func (c SimCfg) toSim(record bool, est int) verifsim.Config {
 	return verifsim.Config{
-		NumCPU: c.NumCPU, Policy: policyID(c.Policy), Param: c.Param, Seed: c.Seed,
+		NumCPU: c.NumCPU, GoMaxProcs: c.GoMaxProcs, Policy: policyID(c.Policy), Param: c.Param, Seed: c.Seed,
 		Choices: c.Choices, MaxSteps: c.MaxSteps, PoolBuggy: c.PoolBuggy, MapShuffle: c.MapShuffle,
 		Record: record, EstSteps: est,
 	}
@@ -492,6 +497,22 @@ func (e *Env) Config() *ipa.IPAConfig {
 		e.cfg = c
 	})
 	return e.cfg
+}
+
+// FreshConfig replaces the process-wide configuration by a pristine copy loaded
+// from the cache (a configuration on which no API call has been made yet), so that
+// lazily initialised state inside the configuration is cold again. No-op without a cache.
+func (e *Env) FreshConfig() bool {
+	e.Config()
+	if e.CachePath == "" || !e.CfgFromCache {
+		return false
+	}
+	c, err := LoadConfigCache(e.CachePath)
+	if err != nil {
+		return false
+	}
+	e.cfg = c
+	return true
 }
 
 const poolSize = 4096
